@@ -3,6 +3,7 @@
 -/
 import GoFlags.Completion
 import GoFlags.Lemmas.Sort
+import GoFlags.Lemmas.Walk
 
 namespace GoFlags.C18
 open GoFlags Bytes
@@ -187,5 +188,223 @@ theorem parser_command_word_after_rest (E : Env) (ps : PS)
     (parseNonOption E ps).2 = false := by
   unfold parseNonOption
   simp [hpos, hret, PS.addArgs]
+
+/-! ### The walk against the parser -/
+
+/-- **The completion walk follows the parser** (command lines of plain words, long options with or
+    without attached or separate arguments, terminators, unknown options; no unknown-option
+    handler).  Whenever the parser's own loop reads all of the already-typed words without an
+    error, the completion walk over those words either reports that the rest of the line is
+    passed through (a terminator was reached), or arrives — at the same point of the line — in a
+    state that agrees with the parser's: same command context, same pending positional arguments,
+    same "a remaining argument has been seen".  For command lines of any length.
+    (`_partial`: clusters of short options are not covered by this theorem.) -/
+theorem walk_follows_parser_partial (E : Env) (help : HelpFn) (fuel : Nat) :
+    ∀ (ps : PS) (cs : CS) (tail : List Bytes), Agree ps cs → cs.args = ps.args ++ tail → tail ≠ [] →
+      ps.args.length < fuel → (∀ w ∈ ps.args, LongOrPlain w) → ps.P.handler = .none → ps.err = none →
+      (parseLoop E help fuel ps).err = none → (parseLoop E help fuel ps).args = [] →
+      (compWalk fuel cs none).2.2 = true ∨
+      ∃ fuel' cs', compWalk fuel cs none = compWalk fuel' cs' none ∧ cs'.args = tail ∧
+        Agree (parseLoop E help fuel ps) cs' := by
+  induction fuel with
+  | zero => intro ps cs tail _ _ _ hf; omega
+  | succ f ih =>
+    intro ps cs tail hag hargs htail hf hwords hnoh h0 herr hdone
+    cases hpargs : ps.args with
+    | nil =>
+      -- nothing left to read: the walk is where the parser is
+      right
+      refine ⟨f + 1, cs, rfl, by rw [hargs, hpargs]; rfl, ?_⟩
+      have : parseLoop E help (f + 1) ps = ps := by unfold parseLoop; simp [PS.eof, hpargs]
+      rw [this]; exact hag
+    | cons arg rest =>
+      have hcargs : cs.args = arg :: (rest ++ tail) := by rw [hargs, hpargs]; rfl
+      obtain ⟨x, xs, hrt⟩ : ∃ x xs, rest ++ tail = x :: xs := by
+        cases hq : rest ++ tail with
+        | nil => simp at hq; exact absurd hq.2 htail
+        | cons x xs => exact ⟨x, xs, rfl⟩
+      have hopts : cs.P.opts = ps.P.opts := hag.decl.opts.symm
+      have hpop : ps.pop = ({ ps with arg := arg, args := rest }, arg) := by simp [PS.pop, hpargs]
+      have heof : ps.eof = false := by simp [PS.eof, hpargs]
+      let s1 : PS := { ps with arg := arg, args := rest }
+      let cs0 : CS := { cs with args := rest ++ tail }
+      have hag0 : Agree s1 cs0 := ⟨hag.decl, hag.cmd, hag.pos, hag.rest⟩
+      have hw : LongOrPlain arg := hwords arg (by rw [hpargs]; simp)
+      have hwrest : ∀ w ∈ rest, LongOrPlain w := fun w hw' => hwords w (by rw [hpargs]; simp [hw'])
+      have hc0args : cs0.args = rest ++ tail := rfl
+      have hcsargs : cs.args = arg :: x :: xs := by rw [hcargs, hrt]
+      have hcs0 : ({ cs with args := x :: xs } : CS) = cs0 := by simp only [cs0, hrt]
+      unfold parseLoop at herr hdone ⊢
+      simp only [heof, Bool.false_eq_true, if_false, hpop] at herr hdone ⊢
+      by_cases hdd : (ps.P.opts.passDoubleDash && arg = B "--") = true
+      · -- the terminator
+        left
+        exact compWalk_terminator f cs none arg x xs hcsargs (by rw [hopts]; exact hdd)
+      · have hdd' : (ps.P.opts.passDoubleDash && arg = B "--") = false := Bool.eq_false_iff.mpr hdd
+        have hddc : (cs.P.opts.passDoubleDash && arg = B "--") = false := by rw [hopts]; exact hdd'
+        simp only [hdd', Bool.false_eq_true, if_false] at herr hdone ⊢
+        cases hio : argumentIsOption arg with
+        | false =>
+          simp only [hio, Bool.not_false, if_true] at herr hdone ⊢
+          have hlc : ps.P.lookupCmd ps.cmd arg = cs.P.lookupCmd cs.cmd arg := by rw [hag.decl.lookupCmd, hag.cmd]
+          by_cases hpa : (ps.P.opts.passAfterNonOption && (ps.P.lookupCmd ps.cmd arg).isNone) = true
+          · left
+            exact compWalk_passAfter f cs none arg x xs hcsargs hddc hio (by rw [hopts, ← hlc]; exact hpa)
+          · have hpa' : (ps.P.opts.passAfterNonOption && (ps.P.lookupCmd ps.cmd arg).isNone) = false := Bool.eq_false_iff.mpr hpa
+            simp only [hpa', Bool.false_eq_true, if_false] at herr hdone ⊢
+            rw [compWalk_plain f cs none arg x xs hcsargs hddc hio (by rw [hopts, ← hlc]; exact hpa'), hcs0]
+            have hstick := parseNonOption_err_sticky E s1
+            have hpw := plainWord_agree E s1 cs0 hag0 h0
+            have hdecl2 := parseNonOption_decl E s1
+            generalize hpn : parseNonOption E s1 = res at herr hdone hstick hpw hdecl2 ⊢
+            obtain ⟨s2, stop⟩ := res
+            cases stop with
+            | true =>
+              simp only at herr hdone hpw ⊢
+              obtain ⟨hag2, ha2, hca2⟩ := hpw herr
+              right
+              have hr0 : rest = [] := by
+                have : s1.args = rest := rfl
+                rw [← this, ← ha2]; exact hdone
+              refine ⟨f, cs0.plainWord arg, rfl, ?_, hag2⟩
+              rw [hca2, hc0args, hr0]; rfl
+            | false =>
+              simp only at herr hdone hpw hstick hdecl2 ⊢
+              have he2 : s2.err = none := by rw [hstick.2 trivial]; exact h0
+              obtain ⟨hag2, ha2, hca2⟩ := hpw he2
+              have hnoh2 : s2.P.handler = .none := by rw [hdecl2.handler]; exact hnoh
+              exact ih s2 (cs0.plainWord arg) tail hag2 (by rw [hca2, ha2]) htail
+                (by rw [ha2]; rw [hpargs] at hf; simp at hf; omega) (by rw [ha2]; exact hwrest) hnoh2 he2 herr hdone
+        | true =>
+          simp only [hio, Bool.not_true, Bool.false_eq_true, if_false] at herr hdone ⊢
+          have hlong : (stripOptionPrefix arg).2.2 = true := by
+            rcases hw with h | h
+            · rw [hio] at h; cases h
+            · exact h
+          generalize hso : stripOptionPrefix arg = so at herr hdone hlong ⊢
+          obtain ⟨pfx, name0, islong⟩ := so
+          simp only at hlong
+          subst hlong
+          simp only at herr hdone ⊢
+          generalize hsp : splitOption name0 true = sp at herr hdone ⊢
+          obtain ⟨name, split', argument⟩ := sp
+          simp only [if_true] at herr hdone ⊢
+          rw [compWalk_long f cs none arg x xs pfx name0 name split' argument hcsargs hddc hio hso hsp, hcs0]
+          have hll : s1.P.lookupLong s1.cmd name = cs.P.lookupLong cs.cmd name := hag0.lookupLong name
+          have hlenrest : rest.length < f := by rw [hpargs] at hf; simp at hf; omega
+          cases hl : cs.P.lookupLong cs.cmd name with
+          | none =>
+            -- an option the declarations do not know
+            have hl1 : s1.P.lookupLong s1.cmd name = none := by rw [hll, hl]
+            have hpl : parseLong E help s1 name argument =
+                (s1, some (.flags .unknownFlag (B "unknown flag `" ++ name ++ B "'"))) := by
+              unfold parseLong; simp only [hl1]
+            rw [hpl] at herr hdone ⊢
+            simp only at herr hdone ⊢
+            have hpol : unknownPolicyStops s1.P (.flags .unknownFlag (B "unknown flag `" ++ name ++ B "'")) = !ps.P.opts.ignoreUnknown := by
+              have : s1.P.handler = .none := hnoh
+              simp [unknownPolicyStops, GoErr.isUnknownFlag, this]
+              rfl
+            cases hign : ps.P.opts.ignoreUnknown with
+            | false =>
+              rw [hpol, hign] at herr
+              simp at herr
+            | true =>
+              rw [hpol, hign] at herr hdone ⊢
+              have hign1 : s1.P.opts.ignoreUnknown = true := hign
+              simp only [Bool.not_true, Bool.false_eq_true, if_false, hign1, if_true] at herr hdone ⊢
+              have hignc : cs.P.opts.ignoreUnknown = true := by rw [hopts]; exact hign
+              simp only [hignc, if_true]
+              have he3 : (s1.addArgs E [arg]).1.err = none := by
+                cases hq : (s1.addArgs E [arg]).1.err with
+                | none => rfl
+                | some e3 =>
+                  exfalso
+                  exact parseLoop_err_sticky E help f _ (by rw [hq]; simp) herr
+              obtain ⟨hag3, ha3, hca3⟩ := passThrough_agree E s1 cs0 arg hag0 h0 he3
+              have hnoh3 : (s1.addArgs E [arg]).1.P.handler = .none := by
+                rw [(addArgs_decl E s1 [arg]).handler]; exact hnoh
+              exact ih _ cs0.passThrough tail hag3 (by rw [hca3, ha3]) htail (by rw [ha3]; exact hlenrest)
+                (by rw [ha3]; exact hwrest) hnoh3 he3 herr hdone
+          | some r =>
+            have hl1 : s1.P.lookupLong s1.cmd name = some r := by rw [hll, hl]
+            have hpl : parseLong E help s1 name argument = parseOption E help s1 r (!(s1.P.opt r).optionalArg) argument := by
+              unfold parseLong; simp only [hl1]
+            rw [hpl] at herr hdone ⊢
+            have hacc := parseOption_accept E help s1 r argument
+            have hnuf := parseOption_not_unknownFlag E help s1 r (!(s1.P.opt r).optionalArg) argument
+            generalize parseOption E help s1 r (!(s1.P.opt r).optionalArg) argument = res at herr hdone hacc hnuf ⊢
+            obtain ⟨s2, err⟩ := res
+            cases err with
+            | some e =>
+              simp only at herr hdone ⊢
+              have : unknownPolicyStops s2.P e = true := by
+                unfold unknownPolicyStops; rw [hnuf e rfl]; rfl
+              rw [this] at herr
+              simp at herr
+            | none =>
+              simp only at herr hdone hacc ⊢
+              have hA := hacc trivial
+              obtain ⟨hty, hoa⟩ := hag0.optTy r
+              have hs1P : s1.P = ps.P := rfl
+              have htk : (argument.isNone && (cs.P.opt r).ty.canArgument && !(cs.P.opt r).optionalArg) =
+                  ((s1.P.opt r).ty.canArgument && argument.isNone && !(s1.P.opt r).optionalArg) := by
+                rw [← hty, ← hoa]; cases argument.isNone <;> cases (s1.P.opt r).ty.canArgument <;> rfl
+              rw [htk]
+              have hnoh2 : s2.P.handler = .none := by rw [hA.decl.handler]; exact hnoh
+              have he2 : s2.err = none := by rw [hA.err]; exact h0
+              cases htakes : ((s1.P.opt r).ty.canArgument && argument.isNone && !(s1.P.opt r).optionalArg) with
+              | false =>
+                simp only [Bool.false_eq_true, if_false]
+                have ha2 : s2.args = rest := by have := hA.args; rw [htakes] at this; simpa using this
+                have hag2 : Agree s2 cs0 := ⟨hA.decl.trans hag.decl, hA.cmd.trans hag.cmd, hA.pos.trans hag.pos, by rw [hA.ret]; exact hag.rest⟩
+                exact ih s2 cs0 tail hag2 (by rw [ha2]) htail (by rw [ha2]; exact hlenrest) (by rw [ha2]; exact hwrest) hnoh2 he2 herr hdone
+              | true =>
+                simp only [if_true]
+                have hne : rest ≠ [] := hA.avail htakes
+                obtain ⟨r0, rest', hr'⟩ := List.exists_cons_of_ne_nil hne
+                have hxs : xs = rest' ++ tail := by
+                  rw [hr'] at hrt
+                  simp only [List.cons_append] at hrt
+                  injection hrt with _ h2
+                  exact h2.symm
+                have hxne : xs ≠ [] := by rw [hxs]; simp [htail]
+                simp only [hxne, if_false]
+                have ha2 : s2.args = rest' := by
+                  have := hA.args; rw [htakes] at this
+                  simp only [if_true] at this
+                  rw [this]; show rest.tail = rest'; rw [hr']; rfl
+                have hag2 : Agree s2 ({ cs with args := xs } : CS) :=
+                  ⟨hA.decl.trans hag.decl, hA.cmd.trans hag.cmd, hA.pos.trans hag.pos, by rw [hA.ret]; exact hag.rest⟩
+                exact ih s2 { cs with args := xs } tail hag2 (by rw [ha2]; exact hxs) htail
+                  (by rw [ha2]; rw [hr'] at hlenrest; simp at hlenrest; omega)
+                  (by rw [ha2]; intro w hw'; exact hwrest w (by rw [hr']; simp [hw'])) hnoh2 he2 herr hdone
+
+/-- **Completion reaches the parser's command context.**  For a whole command line
+    `typed words ++ [partial last word]`, when the parser's own loop reads the typed words without
+    error, the walk of `completion.complete` over them ends either with "the rest is passed
+    through" or with no option value pending and in the command context, with the pending
+    positional arguments and the "remaining argument seen" state, that the parser reached. -/
+theorem completion_reaches_parsers_context (E : Env) (help : HelpFn) (P : Parser) (typed : List Bytes) (last : Bytes)
+    (hwords : ∀ w ∈ typed, LongOrPlain w) (hnoh : P.handler = .none)
+    (herr : (parseLoop E help (typed.length + 2) (({ P := P, args := typed } : PS).fill 0)).err = none)
+    (hdone : (parseLoop E help (typed.length + 2) (({ P := P, args := typed } : PS).fill 0)).args = []) :
+    let w := compWalk ((typed ++ [last]).length + 1) (compStart P (typed ++ [last])) none
+    let ps' := parseLoop E help (typed.length + 2) (({ P := P, args := typed } : PS).fill 0)
+    w.2.2 = true ∨ (w.2.1 = none ∧ w.1.cmd = ps'.cmd ∧ w.1.positional = ps'.positional ∧
+      (w.1.restSeen = true ↔ ps'.retargs ≠ [])) := by
+  have hfuel : (typed ++ [last]).length + 1 = typed.length + 2 := by simp
+  rw [hfuel]
+  have hag : Agree (({ P := P, args := typed } : PS).fill 0) (compStart P (typed ++ [last])) :=
+    ⟨SameDecl.refl _, rfl, rfl, by simp [compStart, CS.fill, PS.fill]⟩
+  rcases walk_follows_parser_partial E help (typed.length + 2) _ _ [last] hag rfl (by simp) (by simp [PS.fill]) hwords hnoh rfl herr hdone with h | ⟨fuel', cs', hw, hargs', hag'⟩
+  · exact Or.inl h
+  · right
+    have hend : compWalk fuel' cs' none = (cs', none, false) := by
+      cases fuel' with
+      | zero => rfl
+      | succ n => unfold compWalk; simp [hargs']
+    rw [hw, hend]
+    exact ⟨rfl, hag'.cmd.symm, hag'.pos.symm, hag'.rest⟩
 
 end GoFlags.C18
